@@ -66,7 +66,9 @@ package nodes
 // C15/C16/C03 group-by emission (CustomTriggerGroupBy.trigger), per polled key k — for whatever set of keys the
 // trigger polled: a retraction is produced exactly when a row was previously sent for k, and it carries exactly that
 // remembered row; an insertion is produced exactly when the group still exists, and that row is remembered; if the
-// group is gone nothing is remembered any more. So per key the consolidated output is "the remembered row", and no
+// group is gone nothing is remembered any more. Both the retraction and the insertion carry the event time of this
+// trigger round (the current event time, or the group's own event-time key if that is earlier) — never an older one,
+// so no emitted record is late with respect to a watermark forwarded in between (C18). So per key the consolidated output is "the remembered row", and no
 // retraction is ever produced for a row that is not present. Other keys' remembered rows are untouched.
 //@ spec prevItem(t *btree.BTree, k int) *previouslySentValuesItem = tget(t, k, previouslySentValuesItem)
 //@ spec prevRI(t *btree.BTree) bool = addr(t) > 0 && forallK(k, thas(t, k) ==> ttag(t, k) == typeidptr(previouslySentValuesItem) && 0 < addr(prevItem(t, k)) && addr(prevItem(t, k)) < frontier() && cls(prevItem(t, k).GroupKey) == k)
@@ -76,6 +78,7 @@ package nodes
 //@   loop 1 invariant ri: prevRI(previouslySentValues) && aggRI(aggregates) && len(OUT) >= old(len(OUT)) && len(OUTM) == old(len(OUTM))
 //@   loop 1 invariant aggs: forallK(k, thas(aggregates, k) == old(thas(aggregates, k)))
 //@   loop 1 step retract: old(thas(previouslySentValues, now(cls(key)))) ==> len(OUT) >= old(len(OUT)) + 1 && OUT[old(len(OUT))].Retraction && OUT[old(len(OUT))].Values.base == old(prevItem(previouslySentValues, now(cls(key))).Values.base) && OUT[old(len(OUT))].Values.off == old(prevItem(previouslySentValues, now(cls(key))).Values.off) && OUT[old(len(OUT))].Values.len == old(prevItem(previouslySentValues, now(cls(key))).Values.len)
+//@   loop 1 step times: (old(thas(previouslySentValues, now(cls(key)))) ==> OUT[old(len(OUT))].EventTime.ns == newValueEventTime.ns) && (thas(aggregates, cls(key)) ==> lastOut().EventTime.ns == newValueEventTime.ns && prevItem(previouslySentValues, cls(key)).EventTime.ns == newValueEventTime.ns) && newValueEventTime.ns <= curEventTime.ns
 //@   loop 1 step count: len(OUT) == old(len(OUT)) + ite(old(thas(previouslySentValues, now(cls(key)))), 1, 0) + ite(thas(aggregates, cls(key)), 1, 0)
 //@   loop 1 step insert: thas(aggregates, cls(key)) ==> !lastOut().Retraction && thas(previouslySentValues, cls(key)) && prevItem(previouslySentValues, cls(key)).Values.base == lastOut().Values.base && prevItem(previouslySentValues, cls(key)).Values.off == lastOut().Values.off && prevItem(previouslySentValues, cls(key)).Values.len == lastOut().Values.len
 //@   loop 1 step forget: !thas(aggregates, cls(key)) ==> !thas(previouslySentValues, cls(key))
